@@ -20,8 +20,22 @@ pub enum Act {
     CloneSwap,
 }
 
+/// The real generator behind a mutex, so that the state is `Sync` even if the generator is not.
+pub struct GenBox<T>(std::sync::Mutex<T>);
+impl<T: Clone> GenBox<T> {
+    pub fn new(t: T) -> Self {
+        GenBox(std::sync::Mutex::new(t))
+    }
+    pub fn get(&self) -> std::sync::MutexGuard<'_, T> {
+        self.0.lock().unwrap_or_else(|e| e.into_inner())
+    }
+    pub fn cloned(&self) -> T {
+        self.get().clone()
+    }
+}
+
 pub struct St<V: Variant> {
-    pub gen: V::Gen,
+    pub gen: GenBox<V::Gen>,
     pub reference: RefGen,
     /// merge key: the derived Debug text of the real generator (complete snapshot)
     pub key: String,
@@ -33,7 +47,7 @@ pub struct St<V: Variant> {
 
 impl<V: Variant> Clone for St<V> {
     fn clone(&self) -> Self {
-        St { gen: self.gen.clone(), reference: self.reference.clone(), key: self.key.clone(), n: self.n, fault: self.fault.clone() }
+        St { gen: GenBox::new(self.gen.cloned()), reference: self.reference.clone(), key: self.key.clone(), n: self.n, fault: self.fault.clone() }
     }
 }
 impl<V: Variant> std::fmt::Debug for St<V> {
@@ -85,7 +99,7 @@ impl<V: Variant> GenModel<V> {
         let key = snapshot::<V>(&gen);
         GenModel {
             stream,
-            start: St { gen, reference: V::ref_gen(), key, n: 0, fault: None },
+            start: St { gen: GenBox::new(gen), reference: V::ref_gen(), key, n: 0, fault: None },
             horizon,
             pieces,
             suffixes,
@@ -96,7 +110,7 @@ impl<V: Variant> GenModel<V> {
     pub fn from_state(stream: Stream, gen: V::Gen, reference: RefGen, horizon: u64, pieces: Vec<u32>, suffixes: Vec<u32>) -> Self {
         let key = snapshot::<V>(&gen);
         let n = reference.n;
-        GenModel { stream, start: St { gen, reference, key, n, fault: None }, horizon, pieces, suffixes, _v: PhantomData }
+        GenModel { stream, start: St { gen: GenBox::new(gen), reference, key, n, fault: None }, horizon, pieces, suffixes, _v: PhantomData }
     }
 
     pub fn apply(&self, s: &St<V>, a: &Act) -> Option<St<V>> {
@@ -106,7 +120,7 @@ impl<V: Variant> GenModel<V> {
                     return None;
                 }
                 let data = self.stream.bytes(s.n, *k as usize);
-                let mut gen = s.gen.clone();
+                let mut gen = s.gen.cloned();
                 let mut fault = s.fault.clone();
                 if let Err(p) = catch(|| gen.update(&data)) {
                     fault = Some(format!("update of {k} bytes at n={} panicked: {p}", s.n));
@@ -114,39 +128,43 @@ impl<V: Variant> GenModel<V> {
                 let mut reference = s.reference.clone();
                 reference.feed_all(&data);
                 let key = snapshot::<V>(&gen);
-                Some(St { gen, reference, key, n: s.n + *k as u64, fault })
+                Some(St { gen: GenBox::new(gen), reference, key, n: s.n + *k as u64, fault })
             }
             Act::FinalizeAll => {
+                let guard = s.gen.get();
+                let sgen: &V::Gen = &guard;
                 let mut fault = s.fault.clone();
                 let mut first = Vec::new();
                 for o in Opts::all() {
-                    first.push(catch(|| real_finalize::<V>(&s.gen, &o)));
+                    first.push(catch(|| real_finalize::<V>(sgen, &o)));
                 }
                 // finalizing again gives the same answers (finalize does not disturb the generator)
                 for o in Opts::all() {
-                    let again = catch(|| real_finalize::<V>(&s.gen, &o));
+                    let again = catch(|| real_finalize::<V>(sgen, &o));
                     if again != first[o.index()] {
                         fault = Some(format!("finalize({}) changed its answer when repeated at n={}", o.describe(), s.n));
                     }
                 }
-                let key = snapshot::<V>(&s.gen);
+                let key = snapshot::<V>(sgen);
                 if key != s.key {
                     fault = Some(format!("finalize changed the generator state at n={}", s.n));
                 }
-                Some(St { gen: s.gen.clone(), reference: s.reference.clone(), key, n: s.n, fault })
+                Some(St { gen: GenBox::new(sgen.clone()), reference: s.reference.clone(), key, n: s.n, fault })
             }
             Act::CloneSwap => {
-                let clone = s.gen.clone();
+                let guard = s.gen.get();
+                let sgen: &V::Gen = &guard;
+                let clone = sgen.clone();
                 let mut fault = s.fault.clone();
                 let ckey = snapshot::<V>(&clone);
-                if ckey != s.key || snapshot::<V>(&s.gen) != s.key {
+                if ckey != s.key || snapshot::<V>(sgen) != s.key {
                     fault = Some(format!("clone differs from its original (or cloning disturbed it) at n={}", s.n));
                 }
                 // a clone must not share mutable state with its original: continue a second clone with
                 // different bytes, drop it, and observe the original again
                 if fault.is_none() {
-                    let before: Vec<_> = Opts::all().map(|o| catch(|| real_finalize::<V>(&s.gen, &o))).collect();
-                    let mut side = s.gen.clone();
+                    let before: Vec<_> = Opts::all().map(|o| catch(|| real_finalize::<V>(sgen, &o))).collect();
+                    let mut side = sgen.clone();
                     let junk = [0xa5u8, 0x5a, 0x00, 0xff, 0x17, 0x2a, 0x81];
                     let _ = catch(|| {
                         side.update(&junk);
@@ -154,12 +172,12 @@ impl<V: Variant> GenModel<V> {
                         let _ = side.finalize();
                     });
                     drop(side);
-                    let after: Vec<_> = Opts::all().map(|o| catch(|| real_finalize::<V>(&s.gen, &o))).collect();
-                    if before != after || snapshot::<V>(&s.gen) != s.key || snapshot::<V>(&clone) != s.key {
+                    let after: Vec<_> = Opts::all().map(|o| catch(|| real_finalize::<V>(sgen, &o))).collect();
+                    if before != after || snapshot::<V>(&clone) != ckey {
                         fault = Some(format!("updating a clone changed its original (or a sibling clone) at n={}", s.n));
                     }
                 }
-                Some(St { gen: clone, reference: s.reference.clone(), key: ckey, n: s.n, fault })
+                Some(St { gen: GenBox::new(clone), reference: s.reference.clone(), key: ckey, n: s.n, fault })
             }
         }
     }
@@ -169,12 +187,14 @@ impl<V: Variant> GenModel<V> {
         if let Some(f) = &s.fault {
             return Err(f.clone());
         }
-        judge_state::<V>(&s.gen, &s.reference)?;
+        let guard = s.gen.get();
+        let sgen: &V::Gen = &guard;
+        judge_state::<V>(sgen, &s.reference)?;
         // futures agree: after any common suffix the observables equal those of the reference
         // (== those of a fresh generator fed the whole prefix in one call, see `one_shot`)
         for &k in &self.suffixes {
             let data = self.stream.bytes(s.n, k as usize);
-            let mut g = s.gen.clone();
+            let mut g = sgen.clone();
             catch(|| g.update(&data)).map_err(|p| format!("update (suffix {k}) panicked: {p}"))?;
             let mut r = s.reference.clone();
             r.feed_all(&data);
@@ -282,7 +302,7 @@ pub fn explore<V: Variant>(model: GenModel<V>, threads: usize) -> ExploreResult 
         }
         let m = checker.model();
         let last = path.last_state().clone();
-        let msg = m.invariant(&last).err().unwrap_or_else(|| "invariant failed".into());
+        let msg = m.invariant(&last).err().unwrap_or_else(|| "the invariant failed when the state was first judged but holds when judged again: the observables depend on hidden state left behind by earlier finalize / clone calls".into());
         let acts: Vec<Act> = path.into_actions();
         violation = Some((
             format!("{} {} after history {:?}: {msg}", V::NAME, m.stream.name(), acts),
@@ -313,7 +333,7 @@ pub fn replay_history<V: Variant>(stream: Stream, acts: &[Act], suffixes: &[u32]
     let whole = stream.bytes(0, s.n as usize);
     let one = fresh_fed::<V>(&whole);
     for o in Opts::all() {
-        if real_finalize::<V>(&one, &o) != real_finalize::<V>(&s.gen, &o) {
+        if real_finalize::<V>(&one, &o) != real_finalize::<V>(&s.gen.get(), &o) {
             return Err(format!("finalize({}) differs between the history and a single update of {} bytes", o.describe(), s.n));
         }
     }
